@@ -53,7 +53,8 @@ const EngineDef* find_engine(const std::string& name);
     ENGINE_DECL(decode) \
     ENGINE_DECL(reencode) \
     ENGINE_DECL(sink) \
-    ENGINE_DECL(writers)
+    ENGINE_DECL(writers) \
+    ENGINE_DECL(objects)
 #define ENGINE_DECL(n) void engine_##n(RunCtx&);
 ENGINE_LIST
 #undef ENGINE_DECL
